@@ -111,21 +111,21 @@ def main(ctx, args):
                 data += "".join(l for l in open(os.path.join(cdir, fn)) if "\t" in l and not l.startswith("#"))
         jobs = [("corpus", ["cases"], data)]
         quick = ctx.tier == "quick"
-        maxn = 4 if quick else 5
-        shards = 4 if quick else 32
+        maxn = 5
+        shards = 16 if quick else 32
         jobs += [(f"enum{k}", ["enum", str(maxn), str(k), str(shards)], None) for k in range(shards)]
-        nrand = 8 if quick else 48
+        nrand = 16 if quick else 96
         for i in range(nrand):
             depth, width = [(3, 3), (4, 4), (6, 3), (5, 8), (6, 8), (8, 2), (2, 40), (12, 1)][i % 8]
-            cnt = (1500 if quick else 6000) if depth * width < 40 else (300 if quick else 1200)
+            cnt = (3000 if quick else 20000) if depth * width < 40 else (500 if quick else 3000)
             jobs.append((f"rand{i}", ["rand", str(ctx.seed * 1000 + i), str(cnt), str(depth), str(width)], None))
-        jobs.append(("args", ["args", str(ctx.seed), "3000" if quick else "30000"], None))
-        jobs.append(("types", ["types", str(ctx.seed), "5000" if quick else "50000"], None))
-        jobs.append(("enumw", ["enumw", "3" if quick else "4"], None))
-        for i in range(2 if quick else 8):
-            jobs.append((f"randw{i}", ["randw", str(ctx.seed * 1000 + 500 + i), "1500", str(3 + i % 3), str(3 + i % 4)], None))
-        for i in range(4 if quick else 16):
-            jobs.append((f"malformed{i}", ["malformed", str(ctx.seed * 1000 + 900 + i), "400" if quick else "1500", "24"], None))
+        jobs.append(("args", ["args", str(ctx.seed), "10000" if quick else "200000"], None))
+        jobs.append(("types", ["types", str(ctx.seed), "20000" if quick else "400000"], None))
+        jobs.append(("enumw", ["enumw", "4"], None))
+        for i in range(4 if quick else 32):
+            jobs.append((f"randw{i}", ["randw", str(ctx.seed * 1000 + 500 + i), "3000", str(3 + i % 3), str(3 + i % 4)], None))
+        for i in range(8 if quick else 64):
+            jobs.append((f"malformed{i}", ["malformed", str(ctx.seed * 1000 + 900 + i), "500" if quick else "2000", "24"], None))
 
         def work(job):
             st = new_stats()
